@@ -22,7 +22,7 @@ ASSUMPTIONS = ["gateway models in gateways/sim.py (reports in bus order, one out
                "daliserver: status 0 none, 1 answer, 255 garbled; ATX hat: 'N' none, 'Jhh' answer"]
 EXHAUSTIVE = {"quick": False, "thorough": False}
 REQUIRED_ANCHORS = {"all": ["sends_checked", "silent_outcomes", "value_outcomes", "error_outcomes", "multi_caller_runs",
-                            "daliserver_checked", "atx_checked", "dfs_runs", "drivers_tridonic", "drivers_hasseb", "drivers_luba", "drivers_sci"]}
+                            "daliserver_checked", "atx_checked", "dfs_runs", "integration_runs", "drivers_tridonic", "drivers_hasseb", "drivers_luba", "drivers_sci"]}
 SPURIOUS_DRIVERS = ("tridonic", "hasseb")
 SHARD_TIMEOUT = {"quick": 600, "thorough": 3000}
 
@@ -35,6 +35,10 @@ def plan(tier, seed):
         for p in range(parts):
             sh.append({"kind": "async", "driver": d, "part": p, "n": n // parts})
     sh.append({"kind": "sync"})
+    # the library's own sequences through each driver against the unit models, compared with a direct run (props/integ.py)
+    for d in simlib.DRIVERS:
+        for p in range(1 if tier == "quick" else 6):
+            sh.append({"kind": "integration", "driver": d, "part": p, "n": 40 if tier == "quick" else 250})
     # bounded-exhaustive walk over the first decisions (caller offsets, gateway delays / coalescing) of fixed scenarios
     for d in simlib.DRIVERS:
         for sc in range(2 if tier == "quick" else 6):
@@ -516,14 +520,25 @@ def run_shard(desc, tier, seed):
     if "replay" in desc:
         for w in desc["replay"]["witnesses"]:
             x = w["witness"]
-            if "case" in x:
+            if "sequences" in x:
+                from props import integ
+                integ.run_case(x["driver"], x["seed"], x["case"], res, "C16", concurrent=x.get("concurrent", False))
+            elif "case" in x:
                 run_async_case(x["driver"], x["seed"], x["part"], x["case"], res,
                                forced=dict(x["forced"]) if x.get("forced") else None)
             else:
                 run_daliserver(seed, res)
                 run_atx(seed, res)
         return res
-    if desc["kind"] == "dfs":
+    if desc["kind"] == "integration":
+        from props import integ
+        for i in range(desc["n"]):
+            try:
+                integ.run_case(desc["driver"], seed, desc["part"] * 100000 + i, res, "C16", concurrent=(i % 2 == 1))
+            except Exception as e:
+                res.inconclusive.append("harness error (integration): " + short_tb(e))
+                break
+    elif desc["kind"] == "dfs":
         try:
             dfs_shard(desc, seed, res)
         except Exception as e:
